@@ -334,10 +334,12 @@ REGISTRY = {
                       'permutations of up to 4 qudits (radix 2) / 3 qudits '
                       '(radix 3); exhaustive inside the bound, no proof '
                       'beyond it',
-        'level_note': 'the graph code (set algebra, comprehensions over '
-                      'sets, sort with key, numpy inf) is outside the pyvc '
-                      'subset: no obligation is discharged deductively for '
-                      'this property; UnitaryMatrix/UnitaryBuilder tensor '
+        'level_note': 'proved for all inputs (pyvc): the edge collections '
+                      'linear, star, ring and grid hand to CouplingGraph; '
+                      'the rest of the graph code (set algebra, '
+                      'comprehensions over sets, sort with key, numpy inf) '
+                      'is outside the pyvc subset and only checked inside '
+                      'the bound; UnitaryMatrix/UnitaryBuilder tensor '
                       'arithmetic is floating point and not decided; '
                       'shortest-path diagonal not compared',
         'parts': [
